@@ -320,7 +320,10 @@ fn has_repeat(p: &[Node]) -> bool {
 
 fn corrupt(rng: &mut Rng, valid: &str, tree: &[Node]) -> Option<(String, &'static str)> {
 	let st = Style { ws: 1, quote_all: false };
-	Some(match rng.below(17) {
+	Some(match rng.below(20) {
+		17 => (format!("{valid} {}.{}=1", ident(rng), ident(rng)), "parameter name with a dot"),
+		18 => (format!("{}.{} a=b", ident(rng), ident(rng)), "operation name with a dot"),
+		19 => (format!("{valid} | {}.{}", ident(rng), ident(rng)), "operation name with a dot"),
 		14 => (format!("{valid} {}={}", ident(rng), rng.pick(&["straße", "köln.versatiles", "naïve", "Ünï", "日本"])), "bare value with non-ASCII letters (must be quoted)"),
 		15 => (format!("{valid} {}={}", ident(rng), rng.pick(&["５", "٣", "1٣", "४2"])), "bare value with non-ASCII digits (must be quoted)"),
 		16 => (format!("{valid} {}=[1,2,{},4]", ident(rng), rng.pick(&["٣", "５", "ä"])), "list element with non-ASCII characters (must be quoted)"),
